@@ -131,7 +131,8 @@ CONTENT = ("_text", "_attrib", "_layout", "_align_mode", "_wrap_mode")
 INLINE = (TX + "Text.layout", TX + "Text.get_text")
 
 
-COMMON = dict(self_shape=TEXT, invariant=RI, replayable=False, inline=INLINE)
+# (receiver_fields: contracts/C10_edit.py models an Edit without the layout cache and inlines Text._invalidate)
+COMMON = dict(self_shape=TEXT, invariant=RI, replayable=False, inline=INLINE, receiver_fields=tuple(TEXT.fields))
 TA = Opt(Tup(TEXTVAL, ATTRIB))
 
 
@@ -255,7 +256,7 @@ class pack:
 
 # ------------------------------------------------------------------------------------------------ mutators
 
-MUT = dict(self_shape=TEXT, invariant=RI, establishes_invariant=True, replayable=False, inline=INLINE)
+MUT = dict(self_shape=TEXT, invariant=RI, establishes_invariant=True, replayable=False, inline=INLINE, receiver_fields=tuple(TEXT.fields))
 
 
 def invalid(s):
